@@ -48,17 +48,29 @@ func shortType(t types.Type) string {
 
 func sigMatches(fn *ssa.Function, rs roleSig) bool {
 	sig := fn.Signature
-	if (sig.Recv() == nil) != (rs.recv == "") {
+	// the receiver counts as the first parameter, so a method and the function it was turned
+	// into (or the reverse) have the same shape
+	var have []string
+	if sig.Recv() != nil {
+		have = append(have, namedTypeName(sig.Recv().Type()))
+	}
+	for i := 0; i < sig.Params().Len(); i++ {
+		t := shortType(sig.Params().At(i).Type())
+		if i == 0 && sig.Recv() == nil {
+			t = strings.TrimPrefix(t, "*")
+		}
+		have = append(have, t)
+	}
+	var want []string
+	if rs.recv != "" {
+		want = append(want, rs.recv)
+	}
+	want = append(want, rs.params...)
+	if len(have) != len(want) || sig.Results().Len() != len(rs.results) {
 		return false
 	}
-	if sig.Recv() != nil && rs.recv != "?" && namedTypeName(sig.Recv().Type()) != rs.recv {
-		return false
-	}
-	if sig.Params().Len() != len(rs.params) || sig.Results().Len() != len(rs.results) {
-		return false
-	}
-	for i, p := range rs.params {
-		if shortType(sig.Params().At(i).Type()) != p {
+	for i := range want {
+		if have[i] != want[i] && !(i == 0 && rs.recv == "?") {
 			return false
 		}
 	}
@@ -200,12 +212,24 @@ func (c *Ctx) find(rel, recv, name string) *ssa.Function {
 			}
 		}
 	}
-	rs, ok := roleTable[rel+"|"+recv+"|"+name]
-	if !ok {
-		return nil
-	}
 	sp := c.P.SSAOf(rel)
 	if sp == nil {
+		return nil
+	}
+	// a method turned into a function taking the former receiver first (or the reverse), same name
+	if recv != "" {
+		if f := sp.Func(name); f != nil && len(f.Params) > 0 && namedTypeName(f.Params[0].Type()) == recv {
+			return f
+		}
+	} else {
+		for _, fn := range c.P.AllFuncs {
+			if fn.Pkg == sp && fn.Parent() == nil && fn.Name() == name && fn.Signature.Recv() != nil && fn.Synthetic == "" {
+				return fn
+			}
+		}
+	}
+	rs, ok := roleTable[rel+"|"+recv+"|"+name]
+	if !ok {
 		return nil
 	}
 	var cands []*ssa.Function
